@@ -170,17 +170,19 @@ func (si BaseNodeSign) Verify(networkID NetworkID, b []byte) error {
 }
 
 func CheckFactSignsBySuffrage(suf Suffrage, threshold Threshold, signs []NodeSign) error {
-	var sign float64
+	// NOTE counts distinct suffrage nodes, not signs, and compares by exact
+	// integer arithmetic; (29/50)*100 = 57.99999999999999 < 58.0 in floats.
+	signed := map[string]struct{}{}
 
 	for i := range signs {
 		s := signs[i]
 
 		if suf.ExistsPublickey(s.Node(), s.Signer()) {
-			sign++
+			signed[s.Node().String()] = struct{}{}
 		}
 	}
 
-	if (sign/float64(suf.Len()))*100 < threshold.Float64() {
+	if uint(len(signed)) < threshold.Threshold(uint(suf.Len())) {
 		return errors.Errorf("not enough signs")
 	}
 
